@@ -1,3 +1,3 @@
 CONSTANTS
   Versions = {0, 1, 2}
-  Scope = "lts"
+  Scope = "ltsV"
